@@ -1,3 +1,166 @@
-//! Client part of C03 (placeholder until the E3 core lands).
-use crate::util::{Report, RunCtx};
-pub fn run(_ctx: &RunCtx, _rep: &mut Report) {}
+//! Client part of C03: mutated server replies, addressed to an outstanding transaction, delivered to clients in
+//! every credential state representative; the client must return a value or an error and remain usable.
+
+use super::c13;
+use super::explore::{self, Event, Monitor, Step};
+use super::server::{build_reply, Chal, NonceKind, PasKind, RClass, RFp, RMac, Reply};
+use super::world::{CallRes, Cfg, Mech, World};
+use crate::faults::{self, Families};
+use crate::refs::codec::L;
+use crate::refs::crypto::hex;
+use crate::util::{Report, RunCtx, Shared};
+use rayon::prelude::*;
+use serde_json::json;
+use std::sync::Arc;
+
+struct Nop;
+impl Monitor for Nop {
+    fn fresh(&self) -> Box<dyn Monitor> {
+        Box::new(Nop)
+    }
+    fn on_step(&mut self, _w: &World, _st: &Step, _rep: Option<(&mut Report, &[Event])>) {}
+    fn key(&self, _w: &World) -> String {
+        String::new()
+    }
+    fn enabled(&self, _w: &World) -> Vec<Event> {
+        vec![]
+    }
+    fn needs_snapshots(&self) -> bool {
+        false
+    }
+}
+
+fn seed_replies(cfg: &Cfg) -> Vec<Reply> {
+    let fp = if cfg.fingerprint { RFp::Valid } else { RFp::Absent };
+    let ok = Reply::plain(RClass::Success).with_fp(fp);
+    let c = |realm, nonce, pas| Chal { realm, nonce, pas };
+    match cfg.mech {
+        Mech::None => vec![ok, Reply::plain(RClass::Error(400)).with_fp(fp), Reply::plain(RClass::Indication).with_fp(fp), ok.with_mac(RMac::Mi)],
+        Mech::ShortTerm(_) => vec![
+            ok.with_mac(RMac::Mi),
+            ok.with_mac(RMac::Sha),
+            ok.with_mac(RMac::Both),
+            Reply::plain(RClass::Error(420)).with_mac(RMac::Mi).with_fp(fp),
+            Reply::plain(RClass::Indication).with_mac(RMac::Sha).with_fp(fp),
+        ],
+        Mech::LongTerm => vec![
+            Reply::plain(RClass::Error(401)).with_chal(c(true, NonceKind::Plain(1), PasKind::Absent)).with_fp(fp),
+            Reply::plain(RClass::Error(401)).with_chal(c(true, NonceKind::Cookie(true, true, 2), PasKind::Md5Sha256)).with_fp(fp),
+            Reply::plain(RClass::Error(401)).with_chal(c(true, NonceKind::Cookie(true, false, 3), PasKind::Unsupported)).with_fp(fp),
+            Reply::plain(RClass::Error(401)).with_chal(c(true, NonceKind::Cookie(false, false, 4), PasKind::Absent)).with_mac(RMac::Mi).with_fp(fp),
+            Reply::plain(RClass::Error(438)).with_chal(c(false, NonceKind::Cookie(true, true, 5), PasKind::Md5Sha256)).with_fp(fp),
+            Reply::plain(RClass::Error(438)).with_chal(c(false, NonceKind::Plain(6), PasKind::Absent)).with_mac(RMac::Mi).with_fp(fp),
+            ok.with_mac(RMac::Mi),
+            ok.with_mac(RMac::Sha),
+            Reply::plain(RClass::Error(500)).with_mac(RMac::Mi).with_fp(fp),
+        ],
+    }
+}
+
+fn fresh_world(cfg: &Cfg, apps: &Arc<Vec<Vec<L>>>, prefix: &[Event], outstanding: usize) -> explore::Run {
+    let mut run = explore::replay(cfg, apps, &Nop, prefix);
+    for _ in 0..outstanding {
+        explore::step(&mut run, &Event::Send { app: 0 }, None);
+    }
+    run
+}
+
+fn mutants_for(run: &explore::Run, reply: &Reply) -> Vec<(Vec<u8>, &'static str)> {
+    let Some(i) = run.w.awaiting().last().copied() else { return vec![] };
+    let r = &run.w.reqs[i];
+    let seed = build_reply(&run.w, r.id, Some(&r.first), reply);
+    let mut out = vec![(seed.clone(), "none")];
+    faults::single_faults(&seed, Families::all(), &mut |m, class| out.push((m.to_vec(), class)));
+    out
+}
+
+pub fn run(ctx: &RunCtx, rep: &mut Report) {
+    let thorough = ctx.thorough();
+    let apps: Arc<Vec<Vec<L>>> = Arc::new(vec![vec![]]);
+    let mut states: Vec<(&'static str, Cfg, Vec<Event>)> = vec![];
+    for fp in [false, true] {
+        for rel in [false, true] {
+            if !thorough && fp != rel {
+                continue; // quick tier: fingerprint off / unreliable and fingerprint on / reliable
+            }
+            for (name, cfg, prefix) in c13::representatives(fp, rel) {
+                states.push((name, cfg, prefix));
+            }
+        }
+    }
+    let work: Vec<(usize, usize)> = (0..states.len()).flat_map(|s| [1usize, 2].into_iter().map(move |o| (s, o))).collect();
+    let shared = Shared::new();
+    work.par_iter().for_each(|(si, outstanding)| {
+        let (name, cfg, prefix) = &states[*si];
+        let mut r = Report::new();
+        for reply in seed_replies(cfg) {
+            let mut run = fresh_world(cfg, &apps, prefix, *outstanding);
+            if run.w.awaiting().is_empty() {
+                continue;
+            }
+            let mut muts = mutants_for(&run, &reply);
+            let mut k = 0;
+            while k < muts.len() {
+                let (bytes, class) = muts[k].clone();
+                k += 1;
+                r.eval();
+                r.transitions += 1;
+                let obs = run.w.recv(&bytes);
+                let replay = || json!({"kind": "client-bytes", "state": name, "config": cfg.show(), "outstanding": outstanding, "seed_reply": reply.show(), "fault": class, "bytes": hex(&bytes)});
+                match &obs.res {
+                    CallRes::Panic(p) => {
+                        r.violate(format!("client-panics/{}/{}", crate::util::panic_site(p), class), format!("{} in state {}", p, name), replay());
+                        run = fresh_world(cfg, &apps, prefix, *outstanding);
+                        muts = mutants_for(&run, &reply);
+                        continue;
+                    }
+                    CallRes::RecvOk => {
+                        r.add_extra("client_mutants_accepted", 1);
+                        // usable afterwards?
+                        let t = run.w.timer();
+                        let s = run.w.send(0);
+                        if matches!(t.res, CallRes::Panic(_)) || matches!(s.res, CallRes::Panic(_)) {
+                            r.violate(format!("client-unusable-after-accepted-mutant/{}", class), format!("{:?} {:?}", t.res, s.res), replay());
+                        }
+                        // restore the credential state for the remaining mutants
+                        run = fresh_world(cfg, &apps, prefix, *outstanding);
+                        muts = mutants_for(&run, &reply);
+                    }
+                    CallRes::RecvErr(_) => {
+                        r.add_extra("client_mutants_rejected", 1);
+                        if run.w.awaiting().is_empty() {
+                            run = fresh_world(cfg, &apps, prefix, *outstanding);
+                            muts = mutants_for(&run, &reply);
+                        }
+                    }
+                    _ => {}
+                }
+                r.sym("client-deliveries");
+            }
+            // usability probe at the end of the seed
+            let t = run.w.timer();
+            let s = run.w.send(0);
+            if let (CallRes::Panic(p), _) | (_, CallRes::Panic(p)) = (&t.res, &s.res) {
+                r.violate("client-unusable-after-mutants", p.clone(), json!({"state": name, "config": cfg.show()}));
+            }
+        }
+        r.sym(name);
+        if *si == 7 && *outstanding == 1 {
+            r.sample(json!({"client_state": name, "config": cfg.show(), "outstanding": outstanding, "seed_replies": seed_replies(cfg).iter().map(|x| x.show()).collect::<Vec<_>>()}));
+        }
+        shared.merge(r);
+    });
+    let part = shared.into_inner();
+    let (acc, rej, n) = (
+        part.extra.get("client_mutants_accepted").and_then(|x| x.as_u64()).unwrap_or(0),
+        part.extra.get("client_mutants_rejected").and_then(|x| x.as_u64()).unwrap_or(0),
+        part.transitions,
+    );
+    rep.merge(part);
+    rep.transitions = 0;
+    rep.extra.insert(
+        "client".into(),
+        json!({"credential_state_representatives": states.len(), "outstanding": [1, 2], "deliveries": n, "accepted": acc, "rejected": rej,
+               "what": "every single-fault mutant of every reply kind of the reference server (addressed to the newest outstanding id, MAC / FINGERPRINT computed for that id) delivered to a client restored to the representative state whenever a mutant was accepted; after acceptance and at the end of every seed: on_timeout, send_request and events must still work"}),
+    );
+}
